@@ -71,7 +71,7 @@ Proof.
   intros Hn (a & b & c & Hin & Hu). rewrite fem_tria_B_full_form.
   assert (Hpos : forall t, In t ts -> 0 < tria_vol4_fn v ts t / 4).
   { intros t Ht. rewrite tria_vol4_fn_nondeg by assumption. unfold tria_nondeg in Hn. rewrite Forall_forall in Hn.
-    specialize (Hn t Ht). apply Rltb_false in Hn. assert (E := eps52_pos). lra. }
+    specialize (Hn t Ht). cbv beta in Hn. lra. }
   assert (G : forall l, (forall t, In t l -> In t ts) -> 0 <= Rsum (fun t => tria_mass_form u u (tria_vol4_fn v ts t / 4) t) l).
   { intros l Hl. apply Rsum_nonneg. intros t Ht. apply tria_mass_form_pos. apply Hpos. apply Hl. exact Ht. }
   apply in_split in Hin. destruct Hin as (l1 & l2 & ->). rewrite Rsum_app. cbn [Rsum].
